@@ -4,6 +4,10 @@
  * (rank r first reserves+registers h[r] taskpools), plus a cumulative pass without reset (unequal grown arrays). */
 #include "parsec/parsec.c"
 #include "seqx.h"
+#include <setjmp.h>
+#include <signal.h>
+static sigjmp_buf jb; static volatile int jb_armed = 0;
+static void on_abort(int sg) { (void)sg; if (jb_armed) siglongjmp(jb, 1); _exit(3); }
 
 #define MAXN 4
 static parsec_taskpool_t **pools; static int npools, cap_pools;
@@ -22,18 +26,22 @@ static int run_case(const int *h, int reset, char *msg, size_t cap, int *out_ids
     for (int i = 0; i < h[rank]; i++) { parsec_taskpool_t *t = new_pool("h"); parsec_taskpool_reserve_id(t); parsec_taskpool_register(t); }
     parsec_taskpool_sync_ids();
     parsec_taskpool_t *nt = new_pool("n");
-    int id = parsec_taskpool_reserve_id(nt); parsec_taskpool_register(nt);
-    int ids[MAXN]; MPI_Allgather(&id, 1, MPI_INT, ids, 1, MPI_INT, MPI_COMM_WORLD);
+    volatile int id = -1;
+    jb_armed = 1;
+    if (0 == sigsetjmp(jb, 1)) { id = parsec_taskpool_reserve_id(nt); parsec_taskpool_register(nt); }
+    else { id = -1; taskpool_array_lock = 0; nt->taskpool_id = 0; npools--; }     /* the registry's own assertion failed: reported below as identifier -1 */
+    jb_armed = 0;
+    int ids[MAXN], myid = id; MPI_Allgather(&myid, 1, MPI_INT, ids, 1, MPI_INT, MPI_COMM_WORLD);
     int mx = 0; for (int r = 0; r < nproc; r++) if (h[r] > mx) mx = h[r];
     int want = base + mx + 1;
     /* local: everything registered earlier still resolves, the new one resolves, ids between are empty */
     int lbad = 0;
     for (int i = (npools > 40 ? npools - 40 : 0); i < npools; i++) if (parsec_taskpool_lookup(pools[i]->taskpool_id) != pools[i]) lbad = 1;   /* the most recent 40 (all of them in the reset pass) */
-    for (int k = base + h[rank] + 1; k < id; k++) if (parsec_taskpool_lookup((uint32_t)k) != NULL) lbad = 2;
-    if (parsec_taskpool_lookup((uint32_t)id + 1) != NULL) lbad = 3;
+    for (int k = base + h[rank] + 1; k < myid; k++) if (parsec_taskpool_lookup((uint32_t)k) != NULL) lbad = 2;
+    if (myid > 0 && parsec_taskpool_lookup((uint32_t)myid + 1) != NULL) lbad = 3;
     int lb[MAXN]; MPI_Allgather(&lbad, 1, MPI_INT, lb, 1, MPI_INT, MPI_COMM_WORLD);
     for (int r = 0; r < nproc; r++) {
-        if (ids[r] != want && !bad) { bad = 1; snprintf(msg, cap, "after sync_ids rank %d assigned identifier %d to its next taskpool, expected %d on every rank (ids:%d %d %d %d)", r, ids[r], want, ids[0], nproc > 1 ? ids[1] : -1, nproc > 2 ? ids[2] : -1, nproc > 3 ? ids[3] : -1); }
+        if (ids[r] != want && !bad) { bad = 1; snprintf(msg, cap, "after sync_ids rank %d assigned identifier %d to its next taskpool (-1: the registry aborted on its own assertion), expected %d on every rank (ids:%d %d %d %d)", r, ids[r], want, ids[0], nproc > 1 ? ids[1] : -1, nproc > 2 ? ids[2] : -1, nproc > 3 ? ids[3] : -1); }
         if (lb[r] && !bad) { bad = 1; snprintf(msg, cap, "rank %d: %s", r, lb[r] == 1 ? "a taskpool registered before the synchronisation no longer resolves" : lb[r] == 2 ? "an identifier skipped by the synchronisation resolves to a taskpool" : "the identifier after the newest one resolves to a taskpool"); }
     }
     for (int r = 0; r < nproc; r++) out_ids[r] = ids[r];
@@ -44,6 +52,7 @@ static int run_case(const int *h, int reset, char *msg, size_t cap, int *out_ids
 int main(int argc, char **argv)
 {
     MPI_Init(&argc, &argv);
+    { struct sigaction sa; memset(&sa, 0, sizeof(sa)); sa.sa_handler = on_abort; sa.sa_flags = SA_NODEFER; sigaction(SIGABRT, &sa, NULL); }
     MPI_Comm_rank(MPI_COMM_WORLD, &rank); MPI_Comm_size(MPI_COMM_WORLD, &nproc);
     if (nproc > MAXN) { MPI_Finalize(); return 2; }
     if (rank == 0) sx_init(argc, argv, "C37"); else { for (int i = 1; i < argc; i++) if (!strcmp(argv[i], "--replay") && i + 1 < argc) sx_replay_file = argv[i + 1]; }
